@@ -13,12 +13,13 @@
 (***************************************************************************)
 EXTENDS Machine
 
-SC == 10000
+\* SC: scale of the linear part of the observed map; carried by the trace (M.SC): 10^4 for float maps, 1 on the
+\* integer sub-group, where coordinates may then be large (hundreds of mm at 3 decimals) without overflow
 AbsV(x) == IF x < 0 THEN -x ELSE x
 AxI == [X |-> 1, Y |-> 2, Z |-> 3]
 
 \* SC * image coordinate i of point pt (trace units)
-ImgS(xf, pt, i) == xf.a[i][1] * pt[1] + xf.a[i][2] * pt[2] + xf.a[i][3] * pt[3] + SC * xf.b[i]
+ImgS(M, xf, pt, i) == xf.a[i][1] * pt[1] + xf.a[i][2] * pt[2] + xf.a[i][3] * pt[3] + M.SC * xf.b[i]
 \* SC * linear image of displacement d
 LinS(xf, d, i)  == xf.a[i][1] * d[1] + xf.a[i][2] * d[2] + xf.a[i][3] * d[3]
 
@@ -37,7 +38,7 @@ MoveLines(e) == {i \in DOMAIN e.lines : MoveLine(e.lines[i].ws)}
 
 \* tolerance in SC-scaled trace units: exact on the integer sub-group, otherwise one unit
 \* (half a unit of output rounding + quantisation of the observed matrix)
-TolS(M) == IF M.exact THEN 0 ELSE SC + SC \div 2
+TolS(M) == IF M.exact THEN 0 ELSE M.SC + M.SC \div 2
 
 C04_Ante(e, p, M) == e.call \in XMoveCalls /\ e.out = "ok" /\ M.xf
 \* every axis word carries the image of the target / the linear image of the displacement
@@ -47,15 +48,15 @@ C04_Words(e, p, M) ==
     /\ \A li \in MoveLines(e) :
          LET ws == e.lines[li].ws IN
          \A ax \in AxisSet : HasW(ws, ax) =>
-            IF p.rel THEN AbsV(SC * ValW(ws, ax) - LinS(e.xf, Disp(e, p), AxI[ax])) <= TolS(M)
-                     ELSE AbsV(SC * ValW(ws, ax) - ImgS(e.xf, Target(e, p), AxI[ax])) <= TolS(M)
+            IF p.rel THEN AbsV(M.SC * ValW(ws, ax) - LinS(e.xf, Disp(e, p), AxI[ax])) <= TolS(M)
+                     ELSE AbsV(M.SC * ValW(ws, ax) - ImgS(M, e.xf, Target(e, p), AxI[ax])) <= TolS(M)
 \* every axis whose machine coordinate has to change (by a unit or more) is mentioned
 C04_Mentions(e, p, M) ==
   C04_Ante(e, p, M) =>
     \A li \in MoveLines(e) :
        LET ws == e.lines[li].ws IN
        \A ax \in AxisSet :
-          AbsV(LinS(e.xf, Disp(e, p), AxI[ax])) >= SC + TolS(M) => HasW(ws, ax)
+          AbsV(LinS(e.xf, Disp(e, p), AxI[ax])) >= M.SC + TolS(M) => HasW(ws, ax)
 \* absolute-bypass moves are not transformed
 C04_Bypass(e, p, M) ==
   (e.call \in XBypassCalls /\ e.out = "ok") =>
@@ -68,8 +69,8 @@ C04_Bypass(e, p, M) ==
 \* end to end: machine = transform(tracked position) on the axes the machine knows
 Agree(xf, rep, m, M) ==
   \A ax \in AxisSet : m.known[ax] =>
-     AbsV(SC * m.pos[ax] - ImgS(xf, <<PV(rep.pos[1]), PV(rep.pos[2]), PV(rep.pos[3])>>, AxI[ax]))
-        <= (IF M.exact THEN 0 ELSE (m.slack[ax] + 2) * (SC \div 2) + SC \div 2)
+     AbsV(M.SC * m.pos[ax] - ImgS(M, xf, <<PV(rep.pos[1]), PV(rep.pos[2]), PV(rep.pos[3])>>, AxI[ax]))
+        <= (IF M.exact THEN 0 ELSE (m.slack[ax] + 2) * (M.SC \div 2) + M.SC \div 2)
 C04_Keeps(e, p, m, m2, M, agreed) ==
   \* (a probe leaves the probed axes unknown on both sides; nothing is claimed across it)
   (agreed /\ e.call \in {"move", "rapid"} /\ e.out = "ok" /\ M.xf) => Agree(e.xf, e.rep, m2, M)
